@@ -20,6 +20,7 @@ static const int E_MEM[] = {ENOMEM, EAGAIN}, E_OPEN[] = {EMFILE, ENFILE, EACCES,
 
 /* returns 1 if this call must fail */
 static int hit(int kind) {
+  if (alw.fail_next_kind == kind + 1) { alw.fail_next_kind = 0; return 1; }
   if (!alw.armed) return 0;
   long idx = ++alw.counter;
   if (alw.log_n < (int)sizeof alw.log) alw.log[alw.log_n++] = (unsigned char)kind;
